@@ -53,6 +53,8 @@ pub enum Fault {
     SilenceNode(usize),
     /// change clockClass of a node at run time
     Quality(usize, u8),
+    /// a slave-only node becomes master-capable at run time (set_slave_only(false), clockClass 248)
+    MasterCapable(usize),
 }
 
 #[derive(Clone, Debug, serde::Serialize, serde::Deserialize)]
@@ -317,7 +319,7 @@ pub fn run_case(rep: &mut Report, t: &Topo, verbose: bool) {
     let observe = 20 * I_NS;
     let mut classes: Vec<u8> = t.nodes.iter().map(|n| n.class).collect();
     let fam = t.family.clone();
-    let mut phase = |sim: &mut Sim, rep: &mut Report, label: &str, settle: u64, classes: &[u8]| -> bool {
+    let mut phase = |sim: &mut Sim, rep: &mut Report, label: &str, settle: u64, classes: &[u8], t: &Topo| -> bool {
         let start = sim.now;
         sim.run_until(start + settle);
         if let Some((node, port, call, p)) = &sim.panic {
@@ -354,9 +356,10 @@ pub fn run_case(rep: &mut Report, t: &Topo, verbose: bool) {
         }
         true
     };
-    if !phase(&mut sim, rep, "initial", settle0, &classes) {
+    if !phase(&mut sim, rep, "initial", settle0, &classes, t) {
         return;
     }
+    let mut t_after = t.clone();
     match &t.fault {
         Fault::None => {}
         f => {
@@ -370,10 +373,20 @@ pub fn run_case(rep: &mut Report, t: &Topo, verbose: bool) {
                     q.clock_class = *c;
                     let _ = sim.nodes[*n].node.set_clock_quality(q);
                 }
+                Fault::MasterCapable(n) => {
+                    classes[*n] = 248;
+                    t_after.nodes[*n].slave_only = false;
+                    t_after.nodes[*n].class = 248;
+                    let mut q = sim.nodes[*n].node.inst().default_ds().clock_quality;
+                    q.clock_class = 248;
+                    let _ = sim.nodes[*n].node.set_clock_quality(q);
+                    let _ = sim.nodes[*n].node.set_slave_only(false);
+                    rep.ev("fault_slave_only_node_made_master_capable");
+                }
                 Fault::None => {}
             }
             rep.ev("fault_applied");
-            phase(&mut sim, rep, "after-fault", settle1, &classes);
+            phase(&mut sim, rep, "after-fault", settle1, &classes, &t_after);
         }
     }
     rep.extra.insert("last_order_hash".into(), json!(sim.order_hash));
@@ -399,7 +412,7 @@ fn node_spec(rng: &mut StdRng, id: u8, n_ports: usize, allow_low_class: bool) ->
 }
 
 pub fn gen_topo(rng: &mut StdRng) -> Topo {
-    let family = rng.gen_range(0..6);
+    let family = rng.gen_range(0..7);
     let mut nodes: Vec<NodeSpec> = vec![];
     let mut links: Vec<LinkSpec> = vec![];
     let link = |rng: &mut StdRng, ends: Vec<(usize, usize)>| LinkSpec { ends, delay_ns: rng.gen_range(1_000..500_000), jitter_ns: rng.gen_range(0..50_000), initially_up: true };
@@ -469,6 +482,20 @@ pub fn gen_topo(rng: &mut StdRng) -> Topo {
                 links.push(link(rng, vec![(0, i), (1 + i, 0)]));
             }
         }
+        6 => {
+            // a silent segment: only slave-only clocks until one of them is made master-capable
+            name = "slave-only-segment";
+            let n = rng.gen_range(1..=4);
+            let mut ends = vec![];
+            for i in 0..n {
+                let mut ns = node_spec(rng, 0x30 + i as u8, 1, false);
+                ns.slave_only = true;
+                ns.class = 255;
+                nodes.push(ns);
+                ends.push((i, 0));
+            }
+            links.push(link(rng, ends));
+        }
         _ => {
             // mixed: two segments joined by a boundary clock, plus a redundant boundary clock
             name = "mixed";
@@ -508,7 +535,10 @@ pub fn gen_topo(rng: &mut StdRng) -> Topo {
         // values >= 2 s encode "align with the Announce arrival window", see run_case
         nodes[0].bmca_phase_ns = if rng.gen_bool(0.7) { 2 * I_NS + rng.gen_range(0..=1000) } else { rng.gen_range(0..I_NS) };
     }
-    let fault = match rng.gen_range(0..6) {
+    let so: Vec<usize> = (0..n_nodes).filter(|&n| nodes[n].slave_only).collect();
+    let fault = match if family == 6 { 6 } else { rng.gen_range(0..6) } {
+        6 => Fault::MasterCapable(so[rng.gen_range(0..so.len())]),
+        5 if !so.is_empty() => Fault::MasterCapable(so[0]),
         0 => Fault::None,
         1 => Fault::CutLink(rng.gen_range(0..n_links)),
         2 => {
@@ -531,7 +561,7 @@ pub fn gen_topo(rng: &mut StdRng) -> Topo {
 
 pub fn run(rep: &mut Report, tier: &str, seed: u64, shard: (u32, u32), replay: Option<&str>) {
     rep.rule = "seeded topologies of real instances (chains, shared segments, rings, two ports of one instance on one segment, star and mixed; <= 6 nodes) with random rankings incl. clockClass < 128 leaves and slave-only nodes, per-link delay/jitter and BMCA phases (no loss: the property speaks of undisturbed announce traffic); each is run to the settle bound, checked structurally, observed for 20 intervals for flapping, then one fault (cut/restore link, silence node, quality change) is applied and everything is checked again; distinct = distinct orders of processed events (hash); non-trivial = a structure check ran".into();
-    rep.require(&["structure_checked_initial", "flap_window_initial", "fault_applied", "structure_checked_after-fault", "sim_events"]);
+    rep.require(&["structure_checked_initial", "flap_window_initial", "fault_applied", "fault_slave_only_node_made_master_capable", "structure_checked_after-fault", "sim_events"]);
     if let Some(path) = replay {
         let v: serde_json::Value = serde_json::from_str(&std::fs::read_to_string(path).unwrap()).unwrap();
         if let Ok(c) = serde_json::from_value::<Topo>(v["case"].clone()) {
